@@ -350,16 +350,16 @@ Proof.
     assert (Hn : In (node T) (held x 1)) by (rewrite Hh; unfold hnodes; rewrite Hpc; left; auto).
     assert (Hlz : next (base x) (ltl T) = 0) by (rewrite <- Hl; eapply chain_last; eauto).
     constructor; cbn [base qs hist ver sver pv ctr hnode tail next data pool thr].
-    + rewrite (app_removelast_last 0 Ine) in *. rewrite Hl in *. rewrite <- app_assoc.
+    + assert (Eq : qs x = removelast (qs x) ++ [ltl T]) by (rewrite <- Hl; apply app_removelast_last; auto).
+      pose proof (o_hs _ _ _ Io 1 _ Hn) as Hns. pose proof (o_nodup _ _ _ Io) as Hnd.
+      rewrite Eq in Ic, Hns, Hnd |- *. rewrite <- app_assoc.
       apply chain_snoc; auto.
-      * apply (o_hnz _ _ _ Io 1); auto.
-      * apply (o_hs _ _ _ Io 1); auto.
-      * apply (o_nodup _ _ _ Io).
+      apply (o_hnz _ _ _ Io 1); auto.
     + destruct (qs x); discriminate.
-    + unfold tail_ok; cbn. rewrite upd_same. cbn. apply last_last.
+    + unfold tail_ok; cbn. apply last_last.
     + apply (own_give_end U (qs x) (held x) _ 1 (node T)); auto.
-      * intros [|[|u]] Hu; cbn; try congruence. rewrite upd_other by lia. reflexivity.
-      * cbn. rewrite upd_same, <- HT. unfold hnodes; cbn [pc]. rewrite Hpc. apply Permutation_refl.
+      * intros [|[|u]] Hu; cbn; try congruence.
+      * cbn. rewrite <- HT. unfold hnodes. rewrite Hpc. apply Permutation_refl.
     + exact Iv.
     + intros u. thr_cases u 0.
       * unfold lok; cbn. reflexivity.
@@ -377,7 +377,7 @@ Proof.
       apply (finish_own U (qs x) (held x) t (hnodes T) T' pl Io Hh); [left; auto|].
       rewrite Hn. exact Fr.
     + auto.
-    + subst t. pose proof (g_tail _ _ _ I) as It. unfold tail_ok in *. cbn. rewrite upd_same.
+    + subst t. pose proof (g_tail _ _ _ I) as It. unfold tail_ok in *. cbn. rewrite ?upd_same.
       rewrite <- HT, Hpc in It. rewrite It.
       pose proof (fresh_not_settail _ _ _ _ Fr). destruct (pc T'); congruence.
     + intros Hne. congruence.
@@ -435,8 +435,7 @@ Proof.
       * auto.
       * tail_same I HT Hpc.
       * auto.
-      * rewrite !upd_same. unfold lok; cbn. rewrite En. split; auto. split; [discriminate|].
-        intros Es. split; auto.
+      * rewrite !upd_same. unfold lok; cbn. rewrite En. split; auto.
       * apply (g_hist _ _ _ I).
   - (* QData *)
     destruct LT as (L1 & L2 & L3).
@@ -463,7 +462,7 @@ Proof.
       * rewrite Er1. cbn [tl]. exact Cr1.
       * rewrite Er1, Er2. discriminate.
       * unfold tail_ok in *. cbn. rewrite Er1, Er2 in *.
-        change (last (sh T :: sn T :: r2) 0) with (last (sn T :: r2) 0) in It. rewrite It. cbn [tl].
+        change (last (sh T :: sn T :: r2) 0) with (last (sn T :: r2) 0) in It. cbn [tl]. rewrite It.
         destruct (Nat.eq_dec t 0) as [->|Hn]; [rewrite upd_same, <- HT, Hpc; reflexivity|].
         rewrite upd_other by auto. reflexivity.
       * apply (own_take U [sh T] (tl (qs x)) (held x) _ (S t)).
@@ -473,7 +472,7 @@ Proof.
       * lia.
       * intros u. thr_cases u t.
         -- unfold lok; cbn. reflexivity.
-        -- apply lok_bump. apply Il.
+        -- eapply lok_bump. apply Il.
       * rewrite replay_app, Ih, Er1, Er2. cbn. rewrite D3, Nat.eqb_refl. reflexivity.
     + destruct (finish t T (drain T) (pool (base x))) as [[T' pl] e] eqn:Ef. cbn [fst].
       pose proof (finish_spec t T (drain T) (pool (base x))) as Fr. rewrite Ef in Fr. cbn [fst snd] in Fr.
@@ -519,3 +518,126 @@ Proof.
   - (* Fin *)
     destruct x; cbn in *; exact I.
 Qed.
+
+(* ---------- initial state ---------- *)
+Definition univ (p n : nat) : Prop := 1 <= n <= p + 1.
+
+Lemma init_linv p start progs : LInv (univ p) start (iinit p start progs).
+Proof.
+  pose (H0 := fun i : nat => match i with 0 => seq 2 p | S _ => @nil nat end).
+  assert (I0 : OwnInv (univ p) [1] H0).
+  { constructor.
+    - constructor; [intros []|constructor].
+    - intros n [<-|[]]. discriminate.
+    - intros [|t]; cbn; [apply seq_NoDup|constructor].
+    - intros [|t] n; cbn; [rewrite in_seq; lia|tauto].
+    - intros [|t] [|u] n; cbn; tauto.
+    - intros [|t] n; cbn; [|tauto]. rewrite in_seq. intros A [B|[]]. lia.
+    - intros n [A B]. destruct (Nat.eq_dec n 1) as [->|Hn]; [left; left; auto|].
+      right. exists 0. cbn. rewrite in_seq. lia. }
+  pose proof (begin_spec 0 (nth 0 progs []) (seq 2 p) 0) as F0.
+  assert (Fo : forall t pl, hnodes (fst (fst (begin (S t) pl (nth (S t) progs []) 0))) = []).
+  { intros t pl. destruct (begin_spec (S t) (nth (S t) progs []) pl 0) as [[[E|E] _]|(E & _)]; [| |discriminate];
+      unfold hnodes; rewrite E; reflexivity. }
+  constructor; cbn [base qs hist ver sver pv iinit].
+  - cbn. auto.
+  - discriminate.
+  - unfold tail_ok. cbn. unfold start0.
+    pose proof (fresh_not_settail _ _ _ _ F0) as Hn.
+    destruct (pc (fst (fst (begin 0 (seq 2 p) (nth 0 progs []) 0)))); congruence.
+  - pose proof (finish_own (univ p) [1] H0 0 [] _ _ I0 eq_refl (or_introl eq_refl) F0) as I1.
+    revert I1. apply own_ext. intros [|[|u]]; cbn; auto.
+  - cbn. lia.
+  - intros [|t]; cbn; eapply fresh_lok; apply begin_spec.
+  - reflexivity.
+Qed.
+
+Theorem ireach_linv p start progs x : ireach p start progs x -> LInv (univ p) start x.
+Proof. induction 1; [apply init_linv|apply linv_step; auto]. Qed.
+
+(* ---------- the statements used by Properties_C20.v ---------- *)
+Lemma pop_snapshot_of_linv U start x t :
+  LInv U start x -> pc (thr (base x) t) = QCas -> ctr (base x) = sc (thr (base x) t) ->
+  sver x t = ver x /\ hnode (base x) = sh (thr (base x) t) /\
+  next (base x) (sh (thr (base x) t)) = sn (thr (base x) t) /\
+  data (base x) (sn (thr (base x) t)) = sd (thr (base x) t) /\
+  exists r, qs x = sh (thr (base x) t) :: sn (thr (base x) t) :: r.
+Proof.
+  intros I Hpc Hc. assert (LT := g_loc _ _ _ I t). unfold lok in LT. rewrite Hpc in LT.
+  destruct LT as ([L1 L1'] & L2 & L3). pose proof (g_ver _ _ _ I) as Iv.
+  assert (Es : sver x t = ver x) by lia. destruct (L3 Es) as (D1 & D2 & D3). repeat split; auto.
+  pose proof (g_chain _ _ _ I) as Ic. pose proof (g_ne _ _ _ I) as Ine.
+  assert (Hz : sh (thr (base x) t) <> 0).
+  { destruct (qs x); [congruence|]. cbn in Ic. destruct Ic as (E0 & Z & _). congruence. }
+  rewrite D1 in Ic. destruct (chain_cons_inv _ _ _ Ic Hz) as (r1 & Er1 & Cr1). rewrite D2 in Cr1.
+  destruct (chain_cons_inv _ _ _ Cr1 L2) as (r2 & Er2 & Cr2). exists r2. congruence.
+Qed.
+
+Fixpoint pushed (h : list hev) : list nat :=
+  match h with [] => [] | HPush v :: r => v :: pushed r | _ :: r => pushed r end.
+Fixpoint popped (h : list hev) : list nat :=
+  match h with [] => [] | HPop _ v :: r => v :: popped r | _ :: r => popped r end.
+
+Lemma replay_fifo h : forall q q', replay h q = Some q' -> q ++ pushed h = popped h ++ q'.
+Proof.
+  induction h as [|e r IH]; intros q q' H; cbn in H.
+  - inversion H; subst. cbn. apply app_nil_r.
+  - destruct e as [v|u v|u|u]; cbn [pushed popped].
+    + apply IH in H. rewrite <- app_assoc in H. exact H.
+    + destruct q as [|a q0]; [discriminate|]. destruct (Nat.eqb_spec a v); [|discriminate]. subst a.
+      apply IH in H. cbn. f_equal. exact H.
+    + destruct q; [|discriminate]. apply IH in H. exact H.
+    + apply IH in H. exact H.
+Qed.
+
+Lemma fifo_of_linv U start x :
+  LInv U start x ->
+  replay (hist x) [] = Some (map (data (base x)) (tl (qs x))) /\
+  pushed (hist x) = popped (hist x) ++ map (data (base x)) (tl (qs x)) /\
+  chain (next (base x)) (hnode (base x)) (qs x) /\ qs x <> [].
+Proof.
+  intros I. split; [apply (g_hist _ _ _ I)|]. split.
+  - apply (replay_fifo _ _ _ (g_hist _ _ _ I)).
+  - split; [apply (g_chain _ _ _ I)|apply (g_ne _ _ _ I)].
+Qed.
+
+(* EMPTY: the queue is empty at the read of head->next, or a pop took effect
+   since this call read the counter (then the answer may be spurious) *)
+Lemma empty_justified_of_linv U start x t :
+  LInv U start x -> pc (thr (base x) t) = QNext -> next (base x) (sh (thr (base x) t)) = 0 ->
+  (sver x t = ver x /\ qs x = [sh (thr (base x) t)]) \/ sver x t < ver x.
+Proof.
+  intros I Hpc En. assert (LT := g_loc _ _ _ I t). unfold lok in LT. rewrite Hpc in LT.
+  destruct LT as ([L1 L1'] & L2).
+  destruct (Nat.eq_dec (sver x t) (ver x)) as [Es|Es]; [left|right; lia]. split; auto.
+  pose proof (g_chain _ _ _ I) as C. rewrite (L2 Es) in C.
+  assert (Hz : sh (thr (base x) t) <> 0).
+  { pose proof (g_ne _ _ _ I). destruct (qs x); [congruence|]. cbn in C. destruct C as (-> & Z & _). exact Z. }
+  destruct (chain_cons_inv _ _ _ C Hz) as (r & Er & Cr). rewrite En in Cr. apply chain_zero in Cr.
+  rewrite Er, Cr. reflexivity.
+Qed.
+
+(* RETRY: only if a pop took effect since this call read the counter *)
+Lemma retry_justified_of_linv U start x t :
+  LInv U start x -> pc (thr (base x) t) = QCas -> cas_ok (base x) (thr (base x) t) = false ->
+  sver x t < ver x.
+Proof.
+  intros I Hpc Hc. assert (LT := g_loc _ _ _ I t). unfold lok in LT. rewrite Hpc in LT.
+  destruct LT as ([L1 L1'] & L2 & L3). pose proof (g_ver _ _ _ I) as Iv.
+  destruct (Nat.eq_dec (sver x t) (ver x)) as [Es|Es]; [|lia]. exfalso.
+  destruct (L3 Es) as (D1 & _). unfold cas_ok in Hc. apply andb_false_iff in Hc.
+  destruct Hc as [Hc|Hc]; [apply Z.eqb_neq in Hc; lia|apply Nat.eqb_neq in Hc; congruence].
+Qed.
+
+(* the value the harness reads from the returned node is the value taken at the DCAS *)
+Lemma pop_value_of_linv U start x t :
+  LInv U start x -> pc (thr (base x) t) = QRData -> data (base x) (sh (thr (base x) t)) = pv x t.
+Proof. intros I Hpc. assert (LT := g_loc _ _ _ I t). unfold lok in LT. rewrite Hpc in LT. exact LT. Qed.
+
+Lemma single_pusher_of_linv U start x t :
+  LInv U start x ->
+  match pc (thr (base x) t) with HData | PTail | PNull | PLink | PSetTail => t = 0 | _ => True end.
+Proof. intros I. assert (LT := g_loc _ _ _ I t). unfold lok in LT. destruct (pc (thr (base x) t)); tauto. Qed.
+
+Lemma no_lost_no_dup_of_linv U start x : LInv U start x -> OwnInv U (qs x) (held x).
+Proof. intros I. apply (g_own _ _ _ I). Qed.
